@@ -401,12 +401,14 @@ def _b64_val(c):
 
 
 def _b64decode_model(data, altchars=None, validate=False):
-    """Exact for inputs over the base64 alphabet plus '=' padding at the end
-    (decided per element by the solver); any other byte makes the path
-    Unsupported unless validate=False semantics are simple (non-alphabet
-    bytes are discarded by CPython) -- we fork on membership and discard."""
+    """base64.b64decode over symbolic bytes: the exact algorithm of CPython's
+    binascii.a2b_base64 in non-strict mode (non-alphabet bytes are skipped, a
+    completed pad sequence stops the scan, '=' before the third character of
+    a quad is ignored); membership tests fork per element."""
     if altchars is not None:
         raise Unsupported('b64decode altchars')
+    if validate:
+        raise Unsupported('b64decode(validate=True) of symbolic data')
     if isinstance(data, _SSeq):
         src = B64_MEMO.get(_elem_key(data._e))
         if src is not None:
@@ -419,46 +421,47 @@ def _b64decode_model(data, altchars=None, validate=False):
                                  'characters')
     else:
         e = elems_of(data)
-    vals = []
-    pad = 0
+
+    def d(c):
+        return c if isinstance(c, bool) else bool(mkbool(c))
+    out = []
+    quad_pos = 0
+    pads = 0
+    left = 0
+    done = False
     for c in e:
-        if (c == 61) if isinstance(c, int) else bool(mkbool(c == 61)):
-            pad += 1
-            # CPython: padding only significant once a quad is completed
-            if (len(vals) + pad) % 4 == 0 and pad:
-                break
+        if d(c == 61):
+            if quad_pos >= 2:
+                pads += 1
+                if quad_pos + pads >= 4:
+                    done = True
+                    break
             continue
         v, ok = _b64_val(c)
-        okb = ok if isinstance(ok, bool) else bool(mkbool(ok))
-        if not okb:
-            if validate:
-                raise _binascii.Error('Non-base64 digit found')
+        if not d(ok):
             continue
-        if pad:
-            # data after padding inside a quad: CPython's exact behaviour is
-            # intricate; not modelled
-            raise Unsupported('base64 data after padding')
-        vals.append(v)
-    rem = len(vals) % 4
-    if rem == 1:
-        raise _binascii.Error('Invalid base64-encoded string: number of data '
-                              'characters cannot be 1 more than a multiple '
-                              'of 4')
-    if rem and (rem + pad) < 4:
+        pads = 0
+        if quad_pos == 0:
+            quad_pos = 1
+            left = v
+        elif quad_pos == 1:
+            quad_pos = 2
+            out.append(left * 4 + _dv(v, 16))
+            left = v % 16
+        elif quad_pos == 2:
+            quad_pos = 3
+            out.append(left * 16 + _dv(v, 4))
+            left = v % 4
+        else:
+            quad_pos = 0
+            out.append(left * 64 + v)
+            left = 0
+    if not done and quad_pos != 0:
+        if quad_pos == 1:
+            raise _binascii.Error('Invalid base64-encoded string: number of '
+                                  'data characters cannot be 1 more than a '
+                                  'multiple of 4')
         raise _binascii.Error('Incorrect padding')
-    out = []
-    for i in range(0, len(vals) - rem, 4):
-        a, b, c, d = vals[i:i + 4]
-        out.append(a * 4 + _dv(b, 16))
-        out.append((b % 16) * 16 + _dv(c, 4))
-        out.append((c % 4) * 64 + d)
-    if rem == 2:
-        a, b = vals[-2:]
-        out.append(a * 4 + _dv(b, 16))
-    elif rem == 3:
-        a, b, c = vals[-3:]
-        out.append(a * 4 + _dv(b, 16))
-        out.append((b % 16) * 16 + _dv(c, 4))
     return mkbytes([z3.simplify(x) if not isinstance(x, int) else x
                     for x in out])
 
@@ -1107,6 +1110,9 @@ def _sxrt_m(recv, name, args, kw):
     if tf is types.FunctionType:
         m = ALWAYS_FUNCS.get(fid)
         if m is not None:
+            return m(*args, **kw)
+        m = FUNC_MODELS.get(fid)
+        if m is not None and _has_proxy(args, kw):
             return m(*args, **kw)
         return f(*args, **kw)
     m = ALWAYS_FUNCS.get(fid)
